@@ -444,7 +444,7 @@ def batch_spellings(ctx):
 def cross_process(ctx, seed: int, n: int, pickles, per_graph, hash_seeds):
     """fresh interpreters with other hash seeds: unpickle there, rebuild there, ship back"""
     outs = eqcases.run_children(ctx, seed, n, pickles, hash_seeds, tag="c04", families=eqfam.FAMILIES,
-                                pickle_families=("callables",))
+                                pickle_families=("callables", "kind-instances"))
     eqfam.judge_children(ctx, outs, "eq")
     ncase = ndis = 0
     for ch in outs:
@@ -554,6 +554,8 @@ def run(ctx: common.Ctx):
     cross_process(ctx, ctx.seed, min(n_x, n_graphs), pickles, per_graph, seeds)
     eqfam.einsum_renamings(ctx, "eq")
     eqfam.constants(ctx, "eq")
+    eqfam.equal_copies(ctx)
+    eqfam.symbolic_shapes(ctx)
     ctx.broken = sorted(set(ctx.broken))[:40]
 
 
